@@ -11,7 +11,12 @@ Oracle = the property text:
   * no out-of-bounds access for any validated configuration (d > n_landmarks is validated but reads past the matrix).
 Correspondence (model = code): select (count incl. the double product), triangulate (exact text equality),
 matrix handed to the solver == lmdsB / lisomapPre (== on exact-mode inputs), result == model post-processing of the
-solver's own (V, lambda) (2^-30 relative)."""
+solver's own (V, lambda) (2^-30 relative).
+Id ranges: in about half of all cases of every leg (sel, tri, api) the library is handed a NON-IDENTITY iterator range
+(`sel=`: a shuffled subset of a larger id space with decoy ids in between, `alldata=`: the callback values of all ids,
+`nan` = every non-sample entry NaN) — the protocol of the spectral checks.  The model sees the selected samples in
+range order (`dist=`/`pts=`), so any "position used as element" (or vice versa) in the landmark code gives a different
+value, a NaN, or a callback evaluation on an id outside the range (counted by the harness: `foreign=`)."""
 import itertools
 import os
 import re
@@ -73,6 +78,72 @@ def rand_subset(r, n, k):
     return r.shuffle(list(range(n)))[:k]
 
 
+# ----------------------------------------------------------------------------- non-identity id ranges
+def pick_ids(r, n):
+    """ids of the n samples inside a larger id space, shuffled: either every position 0..n-1 is a decoy id (all sample
+    ids >= n) or samples and decoys are interleaved"""
+    if r.chance(1, 2):
+        total = 2 * n + r.range(0, max(1, n // 2))
+        return [n + x for x in r.shuffle(list(range(total - n)))[:n]], total, "disjoint"
+    total = n + r.range(1, max(2, n // 2))
+    return r.shuffle(list(range(total)))[:n], total, "interleaved"
+
+
+def id_range(r, n, rows=None, unit=0, points=False):
+    """None, None (identity range 0..n-1, half of the cases) or (sel, alldata): the library is handed the id range `sel`,
+    callbacks are defined on ids.  alldata = 'nan' (every entry that does not belong to two samples is NaN: the code
+    must never look there) or the callback matrix / the points of ALL ids with far-away finite decoys in the units of
+    the data (`rows`: the integer data of the samples before scaling by 2^unit)."""
+    if r.chance(1, 2):
+        return None, None
+    sel, total, _ = pick_ids(r, n)
+    if rows is None or r.chance(1, 2):
+        return sel, "nan"
+    pos = {p: a for a, p in enumerate(sel)}
+    if points:
+        D = len(rows[0])
+        allr = []
+        for i in range(total):
+            if i in pos:
+                allr.append(rows[pos[i]])
+            else:       # a sample pushed 20..40 units away in every coordinate
+                b = rows[r.below(n)]
+                allr.append([x + r.choice([-1, 1]) * r.range(20, 40) for x in b])
+        return sel, show_mat(scaled(allr, unit))
+    mx = max(max(abs(x) for x in row) for row in rows) + 1
+    A = [[(rows[pos[i]][pos[j]] if i in pos and j in pos else mx + r.below(mx + 2)) for j in range(total)] for i in range(total)]
+    return sel, show_mat(scaled(A, unit))
+
+
+def range_fields(sel, alldata):
+    return "" if sel is None else " sel=%s alldata=%s" % (show_idx(sel), alldata)
+
+
+RANGE_FIELDS = re.compile(r" (?:sel|alldata)=\S+")
+FOREIGN = re.compile(r" foreign=(\d+):(-?\d+)$")
+
+
+def model_line(line):
+    """the model sees the selected samples in range order: the id range is the implementation's business"""
+    return RANGE_FIELDS.sub("", line)
+
+
+def stat_range(ctx, line):
+    f = fields(line)
+    if "sel" in f and f["sel"] != show_idx(list(range(len(f["sel"].split(","))))):
+        ctx.stat("id-range:shuffled-subset-with-decoys")
+        ctx.stat("id-range:decoys-" + ("nan" if f.get("alldata", "nan") == "nan" else "far"))
+        return True
+    ctx.stat("id-range:identity")
+    return False
+
+
+def foreign_what(name, m, line):
+    return ("%s evaluates the distance callback on id %s, which is not an element of the range it was handed (%d such "
+            "evaluations; range ids %s): a position in the range used as an element, or the other way round"
+            % (name, m.group(2), int(m.group(1)), fields(line).get("sel", "0..n-1")))
+
+
 def gen_sel(r, quick):
     cases = []
     for _ in range(500 if quick else 20000):
@@ -95,7 +166,8 @@ def gen_sel(r, quick):
             ratio = "%d/%d" % (2 * r.range(0, n - 1) + 1, 2 * n)    # safely between two integers
         else:
             ratio = "0"
-        cases.append("sel n=%d ratio=%s seed=%d" % (n, ratio, r.below(2 ** 31)))
+        sel, _ = id_range(r, n)
+        cases.append("sel n=%d ratio=%s seed=%d" % (n, ratio, r.below(2 ** 31)) + ("" if sel is None else " sel=" + show_idx(sel)))
     return cases
 
 
@@ -116,7 +188,8 @@ def gen_tri(r, quick):
         else:
             lm = rand_subset(r, n, nl)
         ua = r.choice([-20, -10, -3, 0, 0, 5, 15])                   # unit of the callback values: 2^ua
-        dist = scaled([[r.below(8) for _ in range(n)] for _ in range(n)], ua)   # arbitrary (asymmetric) callback values
+        raw = [[r.below(8) for _ in range(n)] for _ in range(n)]
+        dist = scaled(raw, ua)                                       # arbitrary (asymmetric) callback values
         V = [[dy(r, -3, 3, 4) for _ in range(d)] for _ in range(nl)]
         lam = []
         ub = r.choice([-60, -40, -20, 0, 0, 20, 40])                 # eigenvalues of every magnitude (relative tolerance!)
@@ -127,8 +200,9 @@ def gen_tri(r, quick):
         if div0:
             lam[r.below(d)] = "0"                                   # vanishing eigenvalue: pseudo-inverse column
         mu = ["%d:%d" % (r.range(0, 40), 2 * ua - 1) for _ in range(nl)]
+        sel, alldata = id_range(r, n, raw, ua)
         cases.append(("tri n=%d d=%d lm=%s dist=%s V=%s lam=%s mu=%s" % (
-            n, d, show_idx(lm), show_mat(dist), show_mat(V), ",".join(lam), ",".join(mu)), div0))
+            n, d, show_idx(lm), show_mat(dist), show_mat(V), ",".join(lam), ",".join(mu)) + range_fields(sel, alldata), div0))
     return cases
 
 
@@ -209,6 +283,7 @@ def judge_sel(run, cases):
         ctx.count(line, len(lm) >= 2)
         ctx.cov["traces_validated_against_impl"] += 1
         ctx.stat("sel")
+        stat_range(ctx, line)
         # contract of the shuffle oracle
         if sorted(perm) != list(range(n)):
             ctx.broken("contract:shuffle", "contract: random_shuffle returns a permutation",
@@ -255,7 +330,7 @@ def judge_tri(run, cases):
     ctx = run.ctx
     lines = [c for c, _ in cases]
     impl = run.impl(lines)
-    model = run.model(lines)
+    model = run.model([model_line(l) for l in lines])
     if model is None:
         return
     for (line, div0), io, mo in zip(cases, impl, model):
@@ -263,9 +338,15 @@ def judge_tri(run, cases):
         ctx.cov["traces_validated_against_impl"] += 1
         ctx.stat("tri")
         ctx.stat("cmp:exact")
+        stat_range(ctx, line)
         if io.startswith("abort:"):
             ctx.fail("tri:" + io, "triangulate aborts (%s)" % io, case=line, detail={"model": mo})
             continue
+        fm = FOREIGN.search(io)
+        if fm:
+            ctx.stat("tri:foreign-id")
+            ctx.fail("tri:foreign-id", foreign_what("triangulate", fm, line), case=line, detail={"impl": io, "model": mo})
+            io = io[:fm.start()]
         if io != mo:
             ctx.broken("corr:tri", "correspondence triangulate vs Landmarks.triangulate (exact mode)",
                        "triangulate output differs from the model on exact-mode input", case=line,
@@ -274,7 +355,8 @@ def judge_tri(run, cases):
             ctx.sample({"case": line, "impl": io, "model": mo})
 
 
-def api_line(method, n, d, ratio=None, k=None, eig="dense", seed=None, lmwant=None, pts=None, dist=None):
+def api_line(method, n, d, ratio=None, k=None, eig="dense", seed=None, lmwant=None, pts=None, dist=None, sel=None,
+             alldata=None):
     s = "api method=%s n=%d d=%d" % (method, n, d)
     if ratio is not None:
         s += " ratio=%s" % ratio
@@ -289,7 +371,7 @@ def api_line(method, n, d, ratio=None, k=None, eig="dense", seed=None, lmwant=No
         s += " pts=%s" % show_mat(pts)
     else:
         s += " dist=%s" % show_mat(dist)
-    return s
+    return s + range_fields(sel, alldata)
 
 
 def rejected_dimension(run, c):
@@ -330,13 +412,30 @@ def nonfinite_solver_answer(ctx, c, o, tag):
     return True
 
 
+def foreign_id(ctx, c, tag, name):
+    """the harness saw the method evaluate the callback on an id outside the range: a failing input of its own (the
+    embedding of a range is a function of the samples in it).  True = the observation contains NaN read from a decoy,
+    nothing finite is left to judge; False = go on, the property oracle judges the (finite, wrong) values."""
+    fm = FOREIGN.search(c.io)
+    if not fm:
+        return False
+    ctx.stat(tag + ":foreign-id")
+    ctx.fail(tag + ":foreign-id", foreign_what(name, fm, c.line), case=c.line, detail=c.io[:2500])
+    c.io = c.io[:fm.start()]
+    c.o = fields(c.io)
+    c.dead = bool(re.search(r"nan|inf", " ".join(c.o.get(k, "") for k in ("B", "V", "lam", "Y", "G")))) or "exc" in c.o
+    return c.dead
+
+
 class LmdsCase:
     """one Landmark-MDS run + the runs it is compared with"""
 
-    def __init__(self, n, d, ratio, pts=None, dist=None, seed=None, lmwant=None, exact=False, eig="dense", label=""):
+    def __init__(self, n, d, ratio, pts=None, dist=None, seed=None, lmwant=None, exact=False, eig="dense", label="",
+                 ids=(None, None)):
         self.n, self.d, self.ratio, self.pts, self.dist = n, d, ratio, pts, dist
         self.seed, self.lmwant, self.exact, self.eig, self.label = seed, lmwant, exact, eig, label
-        self.line = api_line("lmds", n, d, ratio=ratio, eig=eig, seed=seed, lmwant=lmwant, pts=pts, dist=dist)
+        self.line = api_line("lmds", n, d, ratio=ratio, eig=eig, seed=seed, lmwant=lmwant, pts=pts, dist=dist,
+                             sel=ids[0], alldata=ids[1])
 
 
 def judge_lmds(run, cases):
@@ -350,8 +449,12 @@ def judge_lmds(run, cases):
         c.o = o = fields(io)
         ctx.cov["traces_validated_against_impl"] += 1
         ctx.stat("lmds:" + c.label)
+        stat_range(ctx, c.line)
         if io.startswith("abort:"):
             continue
+        if foreign_id(ctx, c, "lmds", "Landmark MDS"):
+            continue
+        io, o = c.io, c.o
         lm = [] if o.get("lm", "-") == "-" else [int(x) for x in o["lm"].split(",")]
         c.lm = lm
         if io.startswith("api noseed"):
@@ -401,6 +504,8 @@ def judge_lmds(run, cases):
     for c in cases:
         io = c.io
         ctx.count(c.line, c.n > 3)
+        if getattr(c, "dead", False):
+            continue
         if io.startswith("abort:"):
             ctx.stat("lmds:abort")
             report_abort(run, c, "lmds", "Landmark MDS")
@@ -498,11 +603,29 @@ def judge_lmds(run, cases):
                          case=c.line, detail={"impl": c.io[:2500], "mds": fo[:2500], "verdict": gv})
 
 
+def geodesics_differ(G, ref):
+    """None, or (a, j, value, reference value) of the first entry of the landmark geodesics that is not the entry of
+    the full geodesic matrix (exact rationals; 2^-40 relative)"""
+    if ref == "same" or ref == G:
+        return None
+    for a, (ra, rb) in enumerate(zip(G.split(";"), ref.split(";"))):
+        for j, (x, y) in enumerate(zip(ra.split(","), rb.split(","))):
+            if x == y:
+                continue
+            if re.fullmatch(r"nan|inf|-inf|dblmax", x) or re.fullmatch(r"nan|inf|-inf|dblmax", y):
+                return (a, j, x, y)
+            p, q = parse_exact(x), parse_exact(y)
+            if abs(p - q) > Fraction(1, 2 ** 40) * max(abs(p), abs(q)):
+                return (a, j, x, y)
+    return None
+
+
 class LisoCase:
-    def __init__(self, n, d, ratio, k, pts=None, dist=None, seed=None, exact=False, eig="dense", label=""):
+    def __init__(self, n, d, ratio, k, pts=None, dist=None, seed=None, exact=False, eig="dense", label="", ids=(None, None)):
         self.n, self.d, self.ratio, self.k, self.pts, self.dist = n, d, ratio, k, pts, dist
         self.seed, self.exact, self.eig, self.label = seed, exact, eig, label
-        self.line = api_line("lisomap", n, d, ratio=ratio, k=k, eig=eig, seed=seed, pts=pts, dist=dist)
+        self.line = api_line("lisomap", n, d, ratio=ratio, k=k, eig=eig, seed=seed, pts=pts, dist=dist,
+                             sel=ids[0], alldata=ids[1])
 
 
 def judge_lisomap(run, cases):
@@ -514,11 +637,15 @@ def judge_lisomap(run, cases):
         o = c.o
         ctx.cov["traces_validated_against_impl"] += 1
         ctx.stat("lisomap:" + c.label)
+        stat_range(ctx, c.line)
         ctx.count(c.line, True)
         if io.startswith("abort:"):
             ctx.stat("lisomap:abort")
             report_abort(run, c, "lisomap", "Landmark Isomap")
             continue
+        if foreign_id(ctx, c, "lisomap", "Landmark Isomap"):
+            continue
+        o = c.o
         if "exc" in o and o["exc"].startswith("eigendecomposition_failed"):
             ctx.stat("lisomap:eigendecomposition_error(documented)")
             continue
@@ -531,6 +658,14 @@ def judge_lisomap(run, cases):
                      case=c.line, detail=io[:600])
             continue
         c.lm = [int(x) for x in o["lm"].split(",")] if o.get("lm", "-") != "-" else []
+        # the geodesic stage is taken from the implementation: the landmark overload must agree with the rows of the
+        # non-landmark overload on the same graph (same algorithm from the same sources; 2^-40 relative where the texts differ)
+        gd = geodesics_differ(o["G"], o.get("Gref", "same"))
+        ctx.stat("lisomap:landmark-geodesics-vs-full:" + ("differ" if gd else "same" if o.get("Gref") == "same" else "close"))
+        if gd:
+            ctx.broken("corr:lisomap-geodesics", "assumption: the landmark Dijkstra overload returns the landmark rows of the geodesic matrix",
+                       "landmark geodesic (%d, %d) = %s, but the non-landmark overload has %s in row lm[%d] on the same graph"
+                       % (gd[0], gd[1], gd[2], gd[3], gd[0]), case=c.line, detail=c.io[:2500])
         if "dblmax" in o.get("G", ""):
             ctx.stat("lisomap:disconnected-skipped")
             continue
@@ -645,8 +780,9 @@ def lmds_cases(r, quick):
             for j in range(i + 1, n):
                 dist[i][j] = r.range(1, 7)
                 dist[j][i] = dist[i][j] if sym else r.range(1, 7)
-        cases.append(LmdsCase(n, d, "%d/%d" % (nl, n), dist=scaled(dist, r.choice(UNITS)), seed=r.below(2 ** 31), exact=True,
-                              label="exact-int"))
+        u = r.choice(UNITS)
+        cases.append(LmdsCase(n, d, "%d/%d" % (nl, n), dist=scaled(dist, u), seed=r.below(2 ** 31), exact=True,
+                              label="exact-int", ids=id_range(r, n, dist, u)))
     # (2) Euclidean integer points: rank == d (hypothesis of the distance oracle), rank < d, rank > d
     for _ in range(120 if quick else 4500):
         d = r.range(1, 5)
@@ -659,30 +795,36 @@ def lmds_cases(r, quick):
         nl = r.range(lo, n) if r.chance(3, 4) else n
         if nl < d:           # d > n_l has its own family
             nl = min(n, d)
-        cases.append(LmdsCase(n, d, ratio_for(nl, n), pts=scaled(pts, r.choice(UNITS)), seed=r.below(2 ** 31),
-                              label="euclid-rank%s" % ("=d" if rank == d else "<d" if rank < d else ">d")))
+        u = r.choice(UNITS)
+        cases.append(LmdsCase(n, d, ratio_for(nl, n), pts=scaled(pts, u), seed=r.below(2 ** 31),
+                              label="euclid-rank%s" % ("=d" if rank == d else "<d" if rank < d else ">d"),
+                              ids=id_range(r, n, pts, u, points=True)))
     # (3) ratio = 1
     for _ in range(25 if quick else 900):
         d = r.range(1, 4)
         n = r.range(d + 2, 12)
         rank = r.range(d, d + 2)
         pts = int_points(r, n, rank + r.below(2), rank, 3)
-        cases.append(LmdsCase(n, d, "1", pts=scaled(pts, r.choice(UNITS)), seed=r.below(2 ** 31), label="ratio-one"))
+        u = r.choice(UNITS)
+        cases.append(LmdsCase(n, d, "1", pts=scaled(pts, u), seed=r.below(2 ** 31), label="ratio-one",
+                              ids=id_range(r, n, pts, u, points=True)))
     # (4) d > n_landmarks (validated: d < N and ratio >= 3/N)
     for _ in range(4 if quick else 20):
         n = r.range(6, 12)
         nl = r.range(3, 4)
         d = r.range(nl + 1, min(5, n - 1)) if nl + 1 <= min(5, n - 1) else nl + 1
         pts = int_points(r, n, 3, 3, 3)
-        cases.append(LmdsCase(n, d, ratio_for(nl, n), pts=pts, seed=r.below(2 ** 31), label="d>n_l"))
+        cases.append(LmdsCase(n, d, ratio_for(nl, n), pts=pts, seed=r.below(2 ** 31), label="d>n_l",
+                              ids=id_range(r, n, pts, 0, points=True)))
     # (5) randomized solver (configurations): correspondence only
     for _ in range(10 if quick else 300):
         d = r.range(1, 3)
         n = r.range(d + 3, 12)
         pts = int_points(r, n, d + 1, d, 3)
         nl = r.range(max(3, d + 1), n)
-        cases.append(LmdsCase(n, d, ratio_for(nl, n), pts=scaled(pts, r.choice(UNITS)), seed=r.below(2 ** 31), eig="randomized",
-                              label="randomized"))
+        u = r.choice(UNITS)
+        cases.append(LmdsCase(n, d, ratio_for(nl, n), pts=scaled(pts, u), seed=r.below(2 ** 31), eig="randomized",
+                              label="randomized", ids=id_range(r, n, pts, u, points=True)))
     return cases
 
 
@@ -693,14 +835,16 @@ def lmds_exhaustive(r, quick):
            [(5, 2, "ordered"), (5, 1, "ordered"), (5, 3, "ordered"), (6, 2, "ordered"), (6, 3, "sets"), (6, 1, "sets"),
             (7, 2, "ordered34"), (7, 3, "sets"), (7, 1, "sets"), (7, 4, "sets"), (7, 2, "sets")]
     for n, d, mode in plan:
-        pts = scaled(int_points(r, n, d + r.below(2), d, 3), r.choice(UNITS))
+        raw, u = int_points(r, n, d + r.below(2), d, 3), r.choice(UNITS)
+        pts = scaled(raw, u)
         for nl in range(3, n + 1):
             if mode == "ordered" or (mode == "ordered34" and nl <= 4):
                 subs = itertools.permutations(range(n), nl)
             else:
                 subs = (r.shuffle(list(s)) for s in itertools.combinations(range(n), nl))
             for s in subs:
-                cases.append(LmdsCase(n, d, ratio_for(nl, n), pts=pts, lmwant=list(s), label="exhaustive-n%d" % n))
+                cases.append(LmdsCase(n, d, ratio_for(nl, n), pts=pts, lmwant=list(s), label="exhaustive-n%d" % n,
+                                      ids=id_range(r, n, raw, u, points=True)))
     return cases
 
 
@@ -714,8 +858,9 @@ def lisomap_cases(r, quick):
         dist = [[l1(p, q) for q in pts] for p in pts]
         d = r.range(1, D) if nl == n else r.range(1, min(3, nl - 1))      # ratio = 1 is compared with Isomap: d <= D
         k = r.range(3, n - 1)
-        cases.append(LisoCase(n, d, "%d/%d" % (nl, n), k, dist=scaled(dist, r.choice(UNITS)), seed=r.below(2 ** 31), exact=True,
-                              eig=("dense" if r.chance(3, 4) else "randomized"), label="exact-L1"))
+        u = r.choice(UNITS)
+        cases.append(LisoCase(n, d, "%d/%d" % (nl, n), k, dist=scaled(dist, u), seed=r.below(2 ** 31), exact=True,
+                              eig=("dense" if r.chance(3, 4) else "randomized"), label="exact-L1", ids=id_range(r, n, dist, u)))
     # Euclidean / L1 metrics, approx mode, including ratio = 1 (compared with Isomap)
     for _ in range(60 if quick else 2000):
         n = r.range(6, 14 if quick else 24)
@@ -731,15 +876,18 @@ def lisomap_cases(r, quick):
         u = r.choice(UNITS)
         if r.chance(1, 4 if one else 3):
             dist = [[l1(p, q) for q in pts] for p in pts]      # a metric that is not Euclidean: indefinite centred matrix
-            cases.append(LisoCase(n, d, ratio_for(nl, n), k, dist=scaled(dist, u), seed=r.below(2 ** 31), label=label + "-L1"))
+            cases.append(LisoCase(n, d, ratio_for(nl, n), k, dist=scaled(dist, u), seed=r.below(2 ** 31), label=label + "-L1",
+                                  ids=id_range(r, n, dist, u)))
         else:
-            cases.append(LisoCase(n, d, ratio_for(nl, n), k, pts=scaled(pts, u), seed=r.below(2 ** 31), label=label + "-euclid"))
+            cases.append(LisoCase(n, d, ratio_for(nl, n), k, pts=scaled(pts, u), seed=r.below(2 ** 31), label=label + "-euclid",
+                                  ids=id_range(r, n, pts, u, points=True)))
     for _ in range(3 if quick else 12):
         n = r.range(7, 12)
         nl = 3
         d = r.range(4, min(5, n - 1))
         pts = int_points(r, n, 2, 2, 3)
-        cases.append(LisoCase(n, d, ratio_for(nl, n), n - 1, pts=pts, seed=r.below(2 ** 31), label="d>n_l"))
+        cases.append(LisoCase(n, d, ratio_for(nl, n), n - 1, pts=pts, seed=r.below(2 ** 31), label="d>n_l",
+                              ids=id_range(r, n, pts, 0, points=True)))
     return cases
 
 
@@ -801,6 +949,7 @@ def full_api(run, cases):
     diff = [(l, a, b) for l, a, b in zip(lines, light, full) if a != b and not (a.startswith("abort:") and b.startswith("abort:"))]
     ctx.extra["full_public_api_cases"] = {"compared": len(lines), "different": len(diff)}
     ctx.stat("full-api:identical", len(lines) - len(diff))
+    ctx.stat("full-api:non-identity-range", sum(1 for l in lines if " sel=" in l))
     if diff:
         l, a, b = diff[0]
         ctx.broken("corr:full-api", "correspondence: method classes driven directly vs tapkee::with(...).embedRange(...)",
@@ -852,11 +1001,12 @@ def case_from_line(line):
     dist = [[x for x in r.split(",")] for r in f["dist"].split(";")] if "dist" in f else None
     lmwant = [int(x) for x in f["lmwant"].split(",")] if "lmwant" in f else None
     seed = int(f["seed"]) if "seed" in f else None
+    ids = ([int(x) for x in f["sel"].split(",")], f.get("alldata", "nan")) if "sel" in f else (None, None)
     if f["method"] == "lmds":
         return LmdsCase(int(f["n"]), int(f["d"]), f["ratio"], pts=pts, dist=dist, seed=seed, lmwant=lmwant,
-                        eig=f.get("eig", "dense"), label="replay")
+                        eig=f.get("eig", "dense"), label="replay", ids=ids)
     return LisoCase(int(f["n"]), int(f["d"]), f["ratio"], int(f.get("k", 5)), pts=pts, dist=dist, seed=seed,
-                    eig=f.get("eig", "dense"), label="replay")
+                    eig=f.get("eig", "dense"), label="replay", ids=ids)
 
 
 def judge_lines(run, lines):
@@ -938,7 +1088,7 @@ def correspond(ctx):
     if quick:
         by_label = {}
         for c in cases + ex[:40] + lis:
-            by_label.setdefault(type(c).__name__ + c.label, []).append(c)
+            by_label.setdefault(type(c).__name__ + c.label + (":ids" if " sel=" in c.line else ""), []).append(c)
         sample = [c for l in sorted(by_label) for c in by_label[l][:2]]
         full_api(run, sample + [case_from_line(l) for l in corpus if l.startswith("api ")])
     else:
